@@ -13,6 +13,9 @@ pub mod c08;
 pub mod c09;
 pub mod c12;
 pub mod c13;
+pub mod c16;
+pub mod c17;
+pub mod c19;
 pub mod c20;
 
 pub struct Spec {
@@ -116,6 +119,33 @@ pub fn spec(id: &str) -> Option<Spec> {
             min_evaluations: 1_000,
             min_nontrivial: 300,
             run: c13::run,
+        },
+        "C16" => Spec {
+            id: "C16",
+            level: "exploration",
+            shards_quick: 6,
+            shards_thorough: 12,
+            min_evaluations: 10_000,
+            min_nontrivial: 2_000,
+            run: c16::run,
+        },
+        "C17" => Spec {
+            id: "C17",
+            level: "exploration",
+            shards_quick: 8,
+            shards_thorough: 14,
+            min_evaluations: 5_000,
+            min_nontrivial: 1_000,
+            run: c17::run,
+        },
+        "C19" => Spec {
+            id: "C19",
+            level: "exploration",
+            shards_quick: 8,
+            shards_thorough: 14,
+            min_evaluations: 1_000,
+            min_nontrivial: 200,
+            run: c19::run,
         },
         "C20" => Spec {
             id: "C20",
